@@ -12,7 +12,9 @@ package s2
 
 //@ spec func vcCovererOK(c *coverer) bool = c != nil && 0 <= c.minLevel && c.minLevel <= 30 && 0 <= c.MaxLevel && c.MaxLevel <= 30 && 1 <= c.levelMod && c.levelMod <= 3
 // a cell level that respects MinLevel and LevelMod
-//@ spec func vcLevelAllowed(level, minLevel, levelMod int) bool = level >= minLevel && level <= 30 && ((level-minLevel)%levelMod == 0 || level == 30)
+//@ spec func vcLevelAllowed(level, minLevel, levelMod int) bool = level >= minLevel && level <= 30 && (vcDivides(levelMod, level-minLevel) || level == 30)
+// d in 0..30 is a multiple of m in 1..3 (no division: remainders, even by constants, are slow to decide in bulk; bits 0,3,..,30 of 0x49249249 are set)
+//@ spec func vcDivides(m, d int) bool = 0 <= d && d <= 30 && vcIf(m == 1, true, vcIf(m == 2, d&1 == 0, m == 3 && (uint64(0x49249249)>>uint(d))&1 == 1))
 
 //@ func (rc *RegionCoverer) newCoverer() *coverer
 //@   requires rc != nil
@@ -27,7 +29,7 @@ package s2
 //@   requires vcCovererOK(c) && 0 <= level && level <= 30
 //@   ensures [le] result <= level && 0 <= result
 //@   ensures [below-min] level <= c.minLevel ==> result == level
-//@   ensures [mod] level > c.minLevel ==> result >= c.minLevel && (result-c.minLevel)%c.levelMod == 0 && level-result < c.levelMod
+//@   ensures [mod] level > c.minLevel ==> result >= c.minLevel && vcDivides(c.levelMod, result-c.minLevel) && level-result < c.levelMod
 
 //@ func (c *coverer) newCandidate(cell Cell) *candidate
 //@   requires vcCovererOK(c) && c.region != nil
@@ -69,3 +71,46 @@ package s2
 //@   requires rc != nil
 //@   noframe
 //@   ensures [levels] forall k int :: 0 <= k && k < len(result) ==> vcValid(result[k]) && vcLevelAllowed(result[k].Level(), vcClamp(rc.MinLevel, 0, 30), vcClamp(rc.LevelMod, 1, 3))
+
+// ---------------------------------------------------------------- FastCovering: normalizeCovering
+
+//@ spec func vcAllAllowed(cu CellUnion, minLevel, levelMod int) bool = forall k int :: 0 <= k && k < len(cu) ==> vcValid(cu[k]) && vcLevelAllowed(cu[k].Level(), minLevel, levelMod)
+
+//@ func (cu *CellUnion) Normalize()
+//@   assumed "sort and merge of complete sibling groups (sort.Slice, in-place compaction: outside the subset); valid cells in, valid cells out"
+//@   requires cu != nil
+//@   modifies *cu
+//@   ensures (forall k int :: 0 <= k && k < len(old(*cu)) ==> vcValid(old(*cu)[k])) ==> (forall k int :: 0 <= k && k < len(*cu) ==> vcValid((*cu)[k]))
+
+//@ func (c *coverer) isCanonical(covering CellUnion) bool
+//@   assumed "read-only scan; its answer only selects the early return"
+//@   requires c != nil
+
+//@ func (c *coverer) containsAllChildren(covering []CellID, id CellID) bool
+//@   assumed "read-only binary search and scan; its answer only decides whether one more merge is made"
+//@   requires c != nil
+
+//@ func (c *coverer) replaceCellsWithAncestor(covering []CellID, id CellID) []CellID
+//@   assumed "binary searches plus append: every element of the result is id or an element of the argument (stated for the level predicate that is carried)"
+//@   requires c != nil
+//@   modifies covering[*]
+//@   ensures old(vcAllAllowed(covering, c.minLevel, c.levelMod)) && vcValid(id) && vcLevelAllowed(id.Level(), c.minLevel, c.levelMod) ==> vcAllAllowed(result, c.minLevel, c.levelMod)
+
+// every cell left by normalizeCovering is valid and respects the coverer's MinLevel and LevelMod
+//@ func (c *coverer) normalizeCovering(covering *CellUnion)
+//@   requires vcCovererOK(c) && covering != nil && (forall k int :: 0 <= k && k < len(*covering) ==> vcValid((*covering)[k]))
+//@   modifies *covering, (*covering)[*]
+//@   noframe
+//@   ensures [levels] vcAllAllowed(*covering, c.minLevel, c.levelMod)
+//@   loop 1 (rangeindex int): invariant [valid] forall k int :: 0 <= k && k < len(*covering) ==> vcValid((*covering)[k])
+//@   loop 2: invariant [allowed] vcAllAllowed(*covering, c.minLevel, c.levelMod)
+//@   loop 3 (i int, bestIndex int, bestLevel int): invariant [allowed] vcAllAllowed(*covering, c.minLevel, c.levelMod)
+//@   loop 3: invariant [best] 0 <= i && i <= len(*covering) && -1 <= bestLevel && bestLevel <= 30 && (bestLevel >= 0 ==> 0 <= bestIndex && bestIndex < i && bestLevel <= (*covering)[bestIndex].Level()) && (bestLevel > c.minLevel ==> vcDivides(c.levelMod, bestLevel-c.minLevel))
+//@   loop 4 (bestLevel int, id CellID): invariant [allowed] vcAllAllowed(*covering, c.minLevel, c.levelMod)
+//@   loop 4: invariant [id] vcValid(id) && id.Level() == bestLevel && bestLevel >= c.minLevel && vcDivides(c.levelMod, bestLevel-c.minLevel)
+
+// FastCovering hands the region's cell-union bound to normalizeCovering
+//@ func (rc *RegionCoverer) FastCovering(region Region) CellUnion
+//@   requires rc != nil && region != nil && (forall k int :: 0 <= k && k < len(region.CellUnionBound()) ==> vcValid(region.CellUnionBound()[k]))
+//@   noframe
+//@   ensures [levels] vcAllAllowed(result, vcClamp(rc.MinLevel, 0, 30), vcClamp(rc.LevelMod, 1, 3))
